@@ -2,7 +2,15 @@
 
 package bmc
 
-import "github.com/gebn/bmc/pkg/ipmi"
+import (
+	"context"
+
+	"github.com/cenkalti/backoff/v4"
+	"github.com/gebn/bmc/pkg/ipmi"
+)
+
+var _ context.Context
+var _ backoff.BackOff
 
 // Contracts for package bmc (machine-checked by /verif/engine; see /verif/DESIGN.md).
 
@@ -19,7 +27,8 @@ import "github.com/gebn/bmc/pkg/ipmi"
 // retransmission is serialised from the same values as the first attempt.
 
 //@ func (*V2Session).buildAndSend$1
-//@ props C03 C04 C05 C09 C10 C11 C18
+//@ props C03 C04 C05 C09 C10 C11 C13 C18
+//@ at Transport).Send assert [C13.attempt-ctx] ctxChildOf(arg[context.Context](1), ctx)
 //@ requires [sess.valid] !isnil(s) && !isnil(s.v2ConnectionShared) && !isnil(s.buffer) && !isnil(s.transport) && !isnil(c) && !isnil(s.decode) && !isnil(ctx) && !isnil(s.confidentialityLayer)
 //@ requires [sess.term] isnil(terminalErr)
 //@ requires [C09.bound] s.AuthenticatedSequenceNumbers.Inbound < 0xfffffffe
@@ -32,6 +41,7 @@ import "github.com/gebn/bmc/pkg/ipmi"
 //@ at Transport).Send assert [C09.send-seq] s.AuthenticatedSequenceNumbers.Inbound == old(s.AuthenticatedSequenceNumbers.Inbound)+1 && s.v2SessionLayer.Sequence == s.AuthenticatedSequenceNumbers.Inbound
 //@ ensures [C09.step] s.AuthenticatedSequenceNumbers.Inbound == old(s.AuthenticatedSequenceNumbers.Inbound)+uint32(sends()-old(sends())) && sends()-old(sends()) <= 1
 //@ ensures [C10.terminal] !isnil(terminalErr) ==> result == nil
+//@ ensures [C10.send-terminal] sends() > old(sends()) && lastSendFailed() ==> !isnil(terminalErr) // in a session a lost exchange ends the command: no retransmission
 //@ ensures [C10.sent] isnil(terminalErr) ==> sends() == old(sends())+1
 //@ ensures [C10.final] result == nil && isnil(terminalErr) ==> !s.messageLayer.CompletionCode.IsTemporary()
 //@ ensures [C10.temporary] isnil(terminalErr) && sends() > old(sends()) && result == nil ==> s.messageLayer.CompletionCode != 0xc0 && s.messageLayer.CompletionCode != 0xc3
@@ -45,7 +55,8 @@ import "github.com/gebn/bmc/pkg/ipmi"
 // ---- v2sessionless.go: the retry closures of session-less commands and RMCP+ payloads
 
 //@ func (*V2Sessionless).buildAndSendCommand$1
-//@ props C05 C09 C10 C11 C18
+//@ props C05 C09 C10 C11 C13 C18
+//@ at Transport).Send assert [C13.attempt-ctx] ctxChildOf(arg[context.Context](1), ctx)
 //@ requires [conn.valid] !isnil(s) && !isnil(s.buffer) && !isnil(s.transport) && !isnil(c) && !isnil(s.decode) && !isnil(ctx) && bufValid(s.buffer)
 //@ requires [inv.conn] connValid(s)
 //@ ensures [inv.conn] connValid(s)
@@ -58,7 +69,8 @@ import "github.com/gebn/bmc/pkg/ipmi"
 //@ ensures [keep.metrics] metricsOnly(commandRetries, commandResponses)
 
 //@ func (*V2Sessionless).buildAndSendPayload$1
-//@ props C05 C10 C18
+//@ props C05 C10 C13 C18
+//@ at Transport).Send assert [C13.attempt-ctx] ctxChildOf(arg[context.Context](1), ctx)
 //@ ensures [keep.metrics] metricsOnly()
 //@ requires [conn.valid] !isnil(s) && !isnil(s.buffer) && !isnil(s.transport) && !isnil(s.decode) && !isnil(ctx) && bufValid(s.buffer)
 //@ requires [inv.conn] connValid(s)
@@ -68,7 +80,8 @@ import "github.com/gebn/bmc/pkg/ipmi"
 // ---- v2sessionless.go / v2session.go: the functions that build the packet around the retry loop
 
 //@ func (*V2Sessionless).buildAndSendCommand
-//@ props C05 C09 C10 C06 C18
+//@ props C05 C09 C10 C06 C13 C18
+//@ at backoff/v4.Retry assert [C13.retry-ctx] backoffBoundTo(arg[backoff.BackOff](1), ctx)
 //@ ensures [C18.frame] metricsOnly(commandRetries, commandResponses)
 //@ requires [conn.valid] !isnil(s) && !isnil(s.buffer) && !isnil(s.transport) && !isnil(c) && !isnil(s.decode) && !isnil(ctx) && !isnil(s.backoff)
 //@ at SerializeLayers assert [C09.null-wrapper] s.v2SessionLayer.ID == 0 && s.v2SessionLayer.Sequence == 0 && !s.v2SessionLayer.Encrypted && !s.v2SessionLayer.Authenticated &&
@@ -87,7 +100,8 @@ import "github.com/gebn/bmc/pkg/ipmi"
 //@ ensures [inv.conn] connValid(s)
 
 //@ func (*V2Sessionless).buildAndSendPayload
-//@ props C05 C09 C10 C06 C18
+//@ props C05 C09 C10 C06 C13 C18
+//@ at backoff/v4.Retry assert [C13.retry-ctx] backoffBoundTo(arg[backoff.BackOff](1), ctx)
 //@ ensures [C18.frame] metricsOnly()
 //@ requires [conn.valid] !isnil(s) && !isnil(s.buffer) && !isnil(s.transport) && !isnil(p) && !isnil(s.decode) && !isnil(ctx) && !isnil(s.backoff)
 //@ at SerializeLayers assert [C09.null-wrapper] s.v2SessionLayer.ID == 0 && s.v2SessionLayer.Sequence == 0 && !s.v2SessionLayer.Encrypted && !s.v2SessionLayer.Authenticated &&
@@ -96,7 +110,8 @@ import "github.com/gebn/bmc/pkg/ipmi"
 //@ at SerializeLayers assert [C06.rmcp] s.rmcpLayer.Version == 6 && s.rmcpLayer.Sequence == 0xff && s.rmcpLayer.Class == 7 && !s.rmcpLayer.Ack
 
 //@ func (*V2Session).buildAndSend
-//@ props C05 C09 C10 C18
+//@ props C05 C09 C10 C13 C18
+//@ at backoff/v4.Retry assert [C13.retry-ctx] backoffBoundTo(arg[backoff.BackOff](1), ctx)
 //@ ensures [C18.frame] metricsOnly(commandRetries, commandResponses)
 //@ requires [sess.valid] !isnil(s) && !isnil(s.v2ConnectionShared) && !isnil(s.buffer) && !isnil(s.transport) && !isnil(c) && !isnil(s.decode) && !isnil(ctx) && !isnil(s.confidentialityLayer) && !isnil(s.backoff)
 //@ requires [C09.bound] s.AuthenticatedSequenceNumbers.Inbound < 0xfffffffe // fewer than 2^32-2 datagrams per session (stated limitation)
@@ -433,8 +448,9 @@ func specHMACInit(a ipmi.AuthenticationAlgorithm, key []byte) int {
 //@ invariant 1 [C12.sel-inv] forall(qj, 0, rangeindex+1, !hasKey(distinctSupportedSuites, cur(desiredSuites)[qj]))
 //@ ensures [C12.default-list] len(desiredSuites) == 0 ==> len(cur(desiredSuites)) == 2 && &cur(desiredSuites)[0] == &defaultCipherSuites[0] && old(len(defaultCipherSuites) == 2 && defaultCipherSuites[0] == ipmi.CipherSuite17 && defaultCipherSuites[1] == ipmi.CipherSuite3)
 //@ ensures [C12.given-list] len(desiredSuites) != 0 ==> len(cur(desiredSuites)) == len(desiredSuites) && forall(qj, 0, len(desiredSuites), cur(desiredSuites)[qj] == desiredSuites[qj])
-//@ ensures [C12.first] result1 == nil && len(desiredSuites) != 1 ==> exists(qk, 0, len(cur(desiredSuites)), *result0 == cur(desiredSuites)[qk] && hasKey(distinctSupportedSuites, cur(desiredSuites)[qk]) &&
-//@    forall(qj, 0, qk, !hasKey(distinctSupportedSuites, cur(desiredSuites)[qj])))
+//@ ensures [C12.supported] result1 == nil && len(desiredSuites) != 1 ==> hasKey(distinctSupportedSuites, *result0)
+//@ ensures [C12.first] result1 == nil && len(desiredSuites) != 1 ==> forall(qk, 0, len(cur(desiredSuites)), hasKey(distinctSupportedSuites, cur(desiredSuites)[qk]) &&
+//@    forall(qj, 0, qk, !hasKey(distinctSupportedSuites, cur(desiredSuites)[qj])) ==> *result0 == cur(desiredSuites)[qk])
 //@ ensures [C12.advertised] (result1 == nil || result1 == ErrNoSupportedCipherSuite) && len(desiredSuites) != 1 ==> forall(qj, 0, len(supportedSuites), hasKey(distinctSupportedSuites, supportedSuites[qj].CipherSuite))
 
 // ---- v2session.go: an in-session command
@@ -477,3 +493,42 @@ func specHMACInit(a ipmi.AuthenticationAlgorithm, key []byte) int {
 //@ requires [close.conn] !isnil(s) && !isnil(s.Transport)
 //@ ensures [C18.conns-closed] metric(v2ConnectionsOpen) == old(metric(v2ConnectionsOpen))-1
 //@ ensures [C18.frame] metricsOnly(v2ConnectionsOpen)
+
+// ---- sdr_repository.go: the SDR Repository walk (IPMI v2.0 33.9-33.12) and its consistency check
+
+//@ func walkSDRs
+//@ props C14 C13
+//@ requires [walk.args] !isnil(ctx) && !isnil(s)
+//@ invariant 0 [C14.header-read] getSDRCmd.Req.Offset == 0 && getSDRCmd.Req.Length == 5 && getSDRCmd.Req.ReservationID == reserveSDRRepoCmdResp.ReservationID && !isnil(getSDRCmd)
+//@ at Session).SendCommand assert [C14.partial-read] arg[context.Context](1) == ctx && arg[ipmi.Command](2).(*ipmi.GetSDRCmd) == getSDRCmd && getSDRCmd.Req.ReservationID == reserveSDRRepoCmdResp.ReservationID &&
+//@    (getSDRCmd.Req.Offset == 0 && getSDRCmd.Req.Length == 5 || getSDRCmd.Req.Offset == 5 && getSDRCmd.Req.Length <= 64)
+//@ at mapupdate assert [C14.own-id] arg[ipmi.RecordID](1) == header.ID && header.Type == ipmi.RecordTypeFullSensor && !isnil(arg[*ipmi.FullSensorRecord](2))
+//@ at mapupdate assert [C14.record-bytes] len(getSDRCmd.Rsp.Payload) >= 43 && arg[*ipmi.FullSensorRecord](2).Number == getSDRCmd.Rsp.Payload[2] && arg[*ipmi.FullSensorRecord](2).OwnerLUN == ipmi.LUN(getSDRCmd.Rsp.Payload[1]%4) &&
+//@    arg[*ipmi.FullSensorRecord](2).Linearisation == ipmi.Linearisation(getSDRCmd.Rsp.Payload[18]%128) && arg[*ipmi.FullSensorRecord](2).AnalogDataFormat == ipmi.AnalogDataFormat(getSDRCmd.Rsp.Payload[15]/64)
+//@ ensures [C14.no-partial] result1 != nil ==> isnil(result0)
+
+// The closure retried by RetrieveSDRRepository: a walk is only accepted if neither timestamp of
+// the repository moved forward between the two Get SDR Repository Info commands around it.
+//@ func RetrieveSDRRepository$1
+//@ props C14
+//@ requires [walk.args] !isnil(ctx) && !isnil(s)
+//@ ensures [C14.consistent] result == nil ==> !initialInfo.LastAddition.Before(finalInfo.LastAddition) && !initialInfo.LastErase.Before(finalInfo.LastErase)
+//@ ensures [C14.repo-set] result == nil ==> !isnil(repo)
+//@ ensures [C14.discard] result != nil ==> repo == old(repo)
+
+//@ func RetrieveSDRRepository
+//@ props C14 C13
+//@ requires [walk.args] !isnil(ctx) && !isnil(s)
+//@ at backoff/v4.Retry assert [C13.retry-ctx] backoffBoundTo(arg[backoff.BackOff](1), ctx)
+
+//@ func (*V2Session).ReserveSDRRepository
+//@ props C14
+//@ requires [sess.valid] !isnil(s) && !isnil(s.v2ConnectionShared) && !isnil(s.buffer) && !isnil(s.transport) && !isnil(s.decode) && !isnil(ctx) && !isnil(s.confidentialityLayer) && !isnil(s.backoff)
+//@ requires [C09.bound] s.AuthenticatedSequenceNumbers.Inbound < 0xfffffffe
+//@ ensures [C14.reserve-result] result1 == nil ==> isnewobj(result0)
+
+//@ func (*V2Session).GetSDRRepositoryInfo
+//@ props C14
+//@ requires [sess.valid] !isnil(s) && !isnil(s.v2ConnectionShared) && !isnil(s.buffer) && !isnil(s.transport) && !isnil(s.decode) && !isnil(ctx) && !isnil(s.confidentialityLayer) && !isnil(s.backoff)
+//@ requires [C09.bound] s.AuthenticatedSequenceNumbers.Inbound < 0xfffffffe
+//@ ensures [C14.info-result] result1 == nil ==> isnewobj(result0)
